@@ -14,9 +14,15 @@ impl_syscall2!(SocketSyscallFacade, IoUringSocketSyscall, RawSocketSyscall,
     socket(domain: c_int, ty: c_int, protocol: c_int) -> c_int
 );
 
-impl_facade!(SocketSyscallFacade, SocketSyscall,
+impl_facade!(SocketStateFacade, SocketSyscall,
     socket(domain: c_int, ty: c_int, protocol: c_int) -> c_int
 );
+
+impl_new_fd!(NewSocketSyscall, SocketSyscall,
+    socket(domain: c_int, ty: c_int, protocol: c_int) -> c_int
+);
+
+type SocketSyscallFacade<I> = NewSocketSyscall<SocketStateFacade<I>>;
 
 impl_io_uring!(IoUringSocketSyscall, SocketSyscall,
     socket(domain: c_int, ty: c_int, protocol: c_int) -> c_int
